@@ -121,3 +121,33 @@ def make(rng, base="AMBER"):
     names_text = names[:body_start] + "\n".join(head) + ("\n  " if head else "") + names[body_start:body_end] + \
         "\n".join(tail) + "\n" + names[body_end:]
     return dat_text, names_text, notes
+
+
+def make_names_only(rng, base="PARSE"):
+    """A user .names file for a *bundled* parameter file (--ff=X --usernames=FILE): the bundled names plus extra atom
+    rules that re-point canonical atoms at other rows of the same residue with the same charge but a different
+    radius (so totals stay integral while the written radii change)."""
+    dat_lines = (DAT / f"{base}.DAT").read_text(encoding="utf-8").splitlines()
+    names = (DAT / f"{base}.names").read_text(encoding="utf-8")
+    rows = {}
+    for ln in dat_lines:
+        f = ln.split()
+        if ln.startswith("#") or len(f) < 4:
+            continue
+        rows.setdefault(f[0], []).append((f[1], float(f[2]), float(f[3])))
+    cands = []
+    for res, atoms in rows.items():
+        if not re.fullmatch(r"[A-Z]{3}", res):
+            continue
+        for a, qa, ra in atoms:
+            for b, qb, rb in atoms:
+                if a != b and qa == qb and ra != rb:
+                    cands.append((res, a, b))
+    rng.shuffle(cands)
+    tail, notes = [], []
+    for res, a, b in cands[: rng.randint(1, 4)]:
+        tail.append(f"  <residue>\n    <name>{res}</name>\n    <atom>\n      <name>{a}</name>\n      <useatomname>{b}"
+                    f"</useatomname>\n    </atom>\n  </residue>")
+        notes.append(("repoint", res, a, b))
+    body_end = names.rindex("</")
+    return names[:body_end] + "\n".join(tail) + "\n" + names[body_end:], notes
